@@ -182,6 +182,16 @@ func (e *Executor) SetParserTokenLimit(limit int) {
 
 func (e *Executor) SetDisableSuggestion(value bool) {
 	e.disableSuggestion = value
+	if value {
+		// swap out the FieldsOnCorrectType rule with one that doesn't provide suggestions.
+		// The validator's rule set is process-global and not synchronised, so this is done
+		// once at configuration time and never while requests are being validated.
+		validator.RemoveRule("FieldsOnCorrectType")
+
+		rule := rules.FieldsOnCorrectTypeRuleWithoutSuggestions
+		// rule may already have been added
+		validator.ReplaceRule(rule.Name, rule.RuleFunc)
+	}
 }
 
 // parseQuery decodes the incoming query and validates it, pulling from cache if present.
@@ -221,15 +231,6 @@ func (e *Executor) parseQuery(
 		gqlErr, _ := err.(*gqlerror.Error)
 		errcode.Set(err, errcode.ValidationFailed)
 		return nil, gqlerror.List{gqlErr}
-	}
-
-	// swap out the FieldsOnCorrectType rule with one that doesn't provide suggestions
-	if e.disableSuggestion {
-		validator.RemoveRule("FieldsOnCorrectType")
-
-		rule := rules.FieldsOnCorrectTypeRuleWithoutSuggestions
-		// rule may already have been added
-		validator.ReplaceRule(rule.Name, rule.RuleFunc)
 	}
 
 	listErr := validator.Validate(e.es.Schema(), doc)
